@@ -151,7 +151,7 @@ func (encryptor *HashQuery) OnQuery(ctx context.Context, query mysql.OnQueryObje
 		} else if err != nil {
 			return query, false, err
 		}
-		bindSettings[placeholderIndex] = item.Setting
+		encryptor_base.SetPlaceholderSetting(bindSettings, placeholderIndex, item.Setting)
 	}
 	logrus.Debugln("HashQuery.OnQuery changed query")
 	return mysql.NewOnQueryObjectFromStatement(stmt, encryptor.parser), true, nil
